@@ -161,38 +161,49 @@ func (mb *mbox) writeIndex() error {
 		if err := mb.createDir(); err != nil {
 			return err
 		}
-		// Open index for writing
-		verifhook.Crash("index.before-create", mb.indexPath)
-		file, err := os.Create(mb.indexPath)
+		// Write the new index next to the live one and move it into place: a reader, or a
+		// restart after a crash, sees either the old or the new index, never a partial one.
+		tmpPath := mb.indexPath + ".tmp"
+		verifhook.Crash("index.before-create", tmpPath)
+		file, err := os.Create(tmpPath)
 		if err != nil {
 			return err
 		}
-		verifhook.Crash("index.created", mb.indexPath)
+		verifhook.Crash("index.created", tmpPath)
 		writer := bufio.NewWriter(file)
 		// Write each message and then flush
 		enc := gob.NewEncoder(writer)
 		if err = enc.Encode(mb.name); err != nil {
 			_ = file.Close()
+			_ = os.Remove(tmpPath)
 			return err
 		}
 		for _, m := range mb.messages {
 			if err = enc.Encode(m); err != nil {
 				_ = file.Close()
+				_ = os.Remove(tmpPath)
 				return err
 			}
 		}
-		verifhook.Crash("index.encoded", mb.indexPath)
+		verifhook.Crash("index.encoded", tmpPath)
 		if err := writer.Flush(); err != nil {
 			_ = file.Close()
+			_ = os.Remove(tmpPath)
 			return err
 		}
-		verifhook.Crash("index.flushed", mb.indexPath)
+		verifhook.Crash("index.flushed", tmpPath)
 		if err := file.Close(); err != nil {
-			log.Error().Str("module", "storage").Str("path", mb.indexPath).Err(err).
+			log.Error().Str("module", "storage").Str("path", tmpPath).Err(err).
 				Msg("Failed to close")
+			_ = os.Remove(tmpPath)
 			return err
 		}
-		verifhook.Crash("index.closed", mb.indexPath)
+		verifhook.Crash("index.closed", tmpPath)
+		if err := os.Rename(tmpPath, mb.indexPath); err != nil {
+			_ = os.Remove(tmpPath)
+			return err
+		}
+		verifhook.Crash("index.renamed", mb.indexPath)
 	} else {
 		// No messages, delete index+maildir
 		log.Debug().Str("module", "storage").Str("path", mb.path).Msg("Removing mailbox")
@@ -216,7 +227,13 @@ func (mb *mbox) createDir() error {
 
 // removeDir removes the mailbox, plus empty higher level directories
 func (mb *mbox) removeDir() error {
-	// remove mailbox dir, including index file
+	// Remove the index first: from then on the mailbox reads as empty, whatever part of the
+	// directory is left when we are interrupted.
+	verifhook.Crash("rmdir.before-index", mb.indexPath)
+	if err := os.Remove(mb.indexPath); err != nil && !os.IsNotExist(err) {
+		return err
+	}
+	// remove mailbox dir
 	verifhook.Crash("rmdir.before-removeall", mb.path)
 	if err := os.RemoveAll(mb.path); err != nil {
 		return err
